@@ -165,6 +165,22 @@ def findMaster (si : Nat) : List SCell → Option (Coord × List FTok)
     | some (.master sj toks) => if sj = si then some (c.coord, toks) else findMaster si cs
     | _ => findMaster si cs
 
+/-- Shared groups as SpreadsheetML writes them: a group's master comes first (in document order), has a
+    non-empty formula and is the only master of the group; a member follows its master.  `pre` = the cells
+    before the ones looked at. -/
+def sharedOK (pre : List SCell) : List SCell → Bool
+  | [] => true
+  | c :: cs =>
+    (match c.formula with
+     | some (.master si toks) => (findMaster si pre).isNone && renderToks toks != []
+     | some (.member si) => (findMaster si pre).isSome
+     | _ => true) && sharedOK (pre ++ [c]) cs
+
+/-- No `t="str"`/`t="e"` cell with an empty `<v/>` (openpyxl reads those as "no value"; the statement
+    does not say what an empty text result is). -/
+def textOK (cells : List SCell) : Bool :=
+  cells.all fun c => c.stored != .str [] && c.stored != .e []
+
 /-- The formula text a formula cell shows (`none`: a member whose group has no master — not a
     SpreadsheetML file). -/
 def shownFormula (cells : List SCell) (c : SCell) : Option (Option Text) :=
